@@ -5,7 +5,21 @@ def run(ctx):
     rule = ("Each case = one pair of client/server configurations (all 7x7 TLS and 3x3 DTLS version subsets exhaustively; every single suite per version with the suite enabled or disabled on "
             "the server; seeded random suite lists; TLS 1.3 group and signature-algorithm subsets; extended-master-secret on/off pairs; fallback SCSV for every version-set pair) or one "
             "man-in-the-middle rewrite of one ClientHello/ServerHello field (legacy version, random tail, session id, suite drop/insert/swap/set, compression, each extension removed / "
-            "duplicated / one byte edited, unknown extension appended, TLS 1.3 stripped from supported_versions) on 7 configurations, executed in a fork()ed child and judged by the "
-            "reference negotiation function. distinct_nontrivial = distinct configuration/tamper tuples that were applicable and executed.")
+            "duplicated / one byte edited, unknown extension appended, TLS 1.3 stripped from supported_versions) on 7 plain configurations and, for 4 (thorough: 5) TLS 1.3 configurations that go "
+            "through HelloRetryRequest (client key share for a group the server does not enable; RSA and ECDSA identity, SHA-256 and SHA-384 transcript, 1.3-only and 1.1-1.3 version sets; the "
+            "server always sends a cookie, the cookie-less variants are the ext-remove rewrites), the same grid on each of ClientHello1, HelloRetryRequest, ClientHello2 and ServerHello: an "
+            "applied rewrite must not end in two completed endpoints. Signature algorithms: identities RSA-2048, P-256, P-384, P-521 (chains signed with SHA-256) and P-384/P-521 with "
+            "SHA-384/SHA-512 chains, as server and (client-auth variant) as client, under TLS 1.2, DTLS 1.2 and TLS 1.3, against verifier lists drawn from {0401,0501,0601,0403,0503,0603,0804,0805}: "
+            "control (all), singletons, all-but-one, chain algorithm + one, everything the key cannot use, seeded subsets in seeded order (thorough: all 255 subsets); the algorithm actually used "
+            "is read from ServerKeyExchange / CertificateVerify on the wire (TLS 1.3 records opened with the sender's handshake traffic key) and the list actually offered from ClientHello / "
+            "CertificateRequest: completion => algorithm in the verifier's configured list and in the list on the wire and usable with the signer's key type (TLS 1.3: the scheme of its curve / "
+            "rsa_pss_rsae); no usable common algorithm => no completion; control lists must complete. Rogue signer: the signing endpoint's algorithm chooser is overridden (--wrap) to sign with an "
+            "algorithm of its key type that the verifier left out (incl. SHA-1): the verifier must not complete. Every case runs in a fork()ed child and is judged by the reference negotiation "
+            "function. distinct_nontrivial = distinct configuration / rewrite / (identity, version, role, list, forced algorithm) tuples that were applicable and executed.")
     return vflib.std_run(ctx, st, "exploration", rule,
-        ["completeness (must succeed) is asserted only for default lists; exotic list combinations may legally be refused", "renegotiation is compiled out"], min_nontrivial=500)
+        ["completeness (must succeed) is asserted only for default lists, for HelloRetryRequest configurations that share a group, and for signature lists offering the whole universe; exotic list combinations may legally be refused",
+         "(D)TLS 1.2 CertificateRequest carries the library's fixed list (SHA-1/256/384 x RSA/ECDSA) whatever matrixSslSessOptsSetSigAlgs says: a client whose chain needs SHA-512 legally declines; the CertificateVerify algorithm is checked against both the configured list and the list on the wire",
+         "the signer's own matrixSslSessOptsSetSigAlgs list is a verification list (API documentation); it is not required to constrain what that endpoint signs with",
+         "certificate-chain signature algorithms are not 'the signature algorithm in force': only ServerKeyExchange / CertificateVerify are judged",
+         "HelloRetryRequest handshakes with PSK / early data in ClientHello1 are not in the rewrite grid (C04's keyless TLS 1.3 grid exercises HelloRetryRequest with PSK offers)",
+         "renegotiation is compiled out"], min_nontrivial=2000)
